@@ -26,11 +26,12 @@ WRAPPERS = [('Light.set_color', 'plain', lambda b: [PyList([b.sym('int', 'c%d' %
             ('Light.get_color', 'plain', lambda b: [], 'fail-value'),
             ('Light.get_power', 'plain', lambda b: [], None),
             ('MultizoneLight.set_zone_colors', 'multizone', lambda b: [b.sym('int', 'z0'), b.sym('int', 'z1'), PyList([b.sym('int', 'c%d' % i) for i in range(4)]), b.sym('int', 'dur')], None),
-            ('MultizoneLight.get_zone_colors', 'multizone', lambda b: [], None)]
+            ('MultizoneLight.get_zone_colors', 'multizone', lambda b: [], None),
+            ('MatrixLight.set_matrix', 'matrix', lambda b: [Opaque('matrix', {'get_colors': lambda I_, o, a, k: PyList([PyList([1, 2, 3, 4])])}), b.sym('int', 'dur')], None)]
 for qn, kind, mkargs, fv in WRAPPERS:
     c = contract(LL, qn, serves=['C12'], name=qn + '[faulty device]')
     def _setup(b, case, kind=kind, mkargs=mkargs):
-        light, impl = one_light(b, kind, _num_zones=3) if kind == 'multizone' else one_light(b, kind)
+        light, impl = one_light(b, kind, _num_zones=3) if kind == 'multizone' else (one_light(b, kind, _height=1, _width=1) if kind == 'matrix' else one_light(b, kind))
         b.ghost('attempts', 0)
         d = {'self': light}
         for i, a in enumerate(mkargs(b)):
